@@ -2,7 +2,8 @@
 // contexts and reports what every reference saw.
 //
 // stdin : {"jobs":[{id, kind:"script"|"esm"|"cjs", files:{path:code}, entries:[path],
-//                   globals:[free names], wnames:[names]|null, probes:[names], globalName:""}]}
+//                   globals:[free names], wnames:[names]|null, probes:[names], globalName:"",
+//                   ftypes:{path:"esm"|"cjs"}, cjsNames:{path:[export names]}}]}
 // stdout: {"results":[{id, imm:{ref:value}, def:{ref:value}, exports:{entry:{name:value}},
 //                      probes:{name:value}, sites:{site:key}, error:""}]}
 //
@@ -14,6 +15,8 @@
 'use strict'
 const vm = require('vm')
 const path = require('path')
+
+const JOB_TIMEOUT_MS = 60000
 
 const HELPERS = `
 (function (global, freeNames, wnames) {
@@ -85,19 +88,67 @@ async function runJob(job) {
   }
   try {
     if (job.kind === 'esm') {
+      // A small reference loader: ES modules are vm.SourceTextModules; a CommonJS file
+      // (job.ftypes[p] === 'cjs') runs once inside function (exports, module, require);
+      // an ES module that imports it sees a synthetic module with the export names
+      // job.cjsNames[p]; require() of an ES module evaluates it at once (all modules are
+      // linked up front; evaluation of a module without top-level await is synchronous);
+      // import() evaluates the module and resolves to its namespace.
+      const ftypes = job.ftypes || {}
+      const isCJS = (p) => ftypes[p] === 'cjs'
+      const resolve = (spec, from) => path.posix.normalize(path.posix.join(path.posix.dirname(from), spec))
       const cache = new Map()
+      const cjs = new Map()
+      const dynamic = (from) => async (spec) => {
+        const m = load(resolve(spec, from))
+        if (m.status === 'linked') await m.evaluate()
+        if (m.status === 'errored') throw m.error
+        return m
+      }
+      const requireFrom = (from) => (spec) => {
+        const p = resolve(spec, from)
+        if (!(p in job.files)) throw new Error('module not found: ' + p)
+        if (isCJS(p)) return runCJS(p)
+        const m = load(p)
+        if (m.status === 'linked') m.evaluate().catch(() => {})
+        if (m.status === 'errored') throw m.error
+        return m.namespace
+      }
+      const runCJS = (p) => {
+        if (cjs.has(p)) return cjs.get(p).exports
+        const module = vm.runInContext('({ exports: {} })', ctx)
+        cjs.set(p, module)
+        const fn = vm.runInContext('(function (exports, module, require) {' + job.files[p] + '\n})', ctx,
+          { filename: p, importModuleDynamically: dynamic(p) })
+        fn(module.exports, module, requireFrom(p))
+        return module.exports
+      }
       const load = (p) => {
         if (cache.has(p)) return cache.get(p)
         if (!(p in job.files)) throw new Error('module not found: ' + p)
-        const m = new vm.SourceTextModule(job.files[p], { context: ctx, identifier: p })
+        let m
+        if (isCJS(p)) {
+          const names = ((job.cjsNames || {})[p] || []).filter((n) => n !== 'default')
+          m = new vm.SyntheticModule(names.concat(['default']), function () {
+            const e = runCJS(p)
+            for (const n of names) this.setExport(n, e[n])
+            this.setExport('default', e)
+          }, { context: ctx, identifier: p })
+        } else {
+          m = new vm.SourceTextModule(job.files[p], { context: ctx, identifier: p, importModuleDynamically: dynamic(p) })
+        }
         cache.set(p, m)
         return m
       }
-      const linker = (spec, ref) => load(path.posix.normalize(path.posix.join(path.posix.dirname(ref.identifier), spec)))
+      const linker = (spec, ref) => load(resolve(spec, ref.identifier))
+      ctx.require = requireFrom(job.entries[0]) // "require" inside an ES module file: a free name
       for (const p of Object.keys(job.files)) load(p) // syntax errors surface here, before linking
+      for (const p of Object.keys(job.files)) {
+        const m = load(p)
+        if (m.status === 'unlinked') await m.link(linker)
+      }
       for (const e of job.entries) {
         const m = load(e)
-        if (m.status === 'unlinked') await m.link(linker)
         if (m.status === 'linked') await m.evaluate()
         if (m.status === 'errored') throw m.error
         readExports(e, m.namespace)
@@ -115,6 +166,8 @@ async function runJob(job) {
   } catch (e) {
     out.error = errName(e)
   }
+  // let import().then(...) continuations run before the final reads
+  await new Promise((resolve) => setImmediate(resolve))
   try {
     const logs = JSON.parse(vm.runInContext('__END()', ctx))
     out.imm = logs.imm
@@ -136,7 +189,11 @@ async function main() {
   const input = JSON.parse(data)
   const results = []
   for (const job of input.jobs) {
-    try { results.push(await runJob(job)) } catch (e) { results.push({ id: job.id, imm: {}, def: {}, exports: {}, probes: {}, error: 'harness: ' + errName(e) }) }
+    // a job whose promise never settles (or that takes absurdly long) must not stall the batch
+    let timer
+    const guard = new Promise((resolve) => { timer = setTimeout(() => resolve({ id: job.id, imm: {}, def: {}, exports: {}, probes: {}, error: 'harness: TIMEOUT' }), JOB_TIMEOUT_MS) })
+    try { results.push(await Promise.race([runJob(job), guard])) } catch (e) { results.push({ id: job.id, imm: {}, def: {}, exports: {}, probes: {}, error: 'harness: ' + errName(e) }) }
+    clearTimeout(timer)
   }
   process.stdout.write(JSON.stringify({ results }))
 }
